@@ -158,7 +158,7 @@ PIPELINES.append(Pipeline('U5_ReferenceTable_add', units=[U_rtadd], prelude=rt_p
 PIPELINES.pop()
 # add() with the ghost counter maintained by a woven ghost statement next to the ring increment
 U_rtadd_g = Unit(O5M, 'add', cls='ReferenceTable', extra_members=['current_entry'], pre=RT_RULES + [(r'm_table\.resize\(', 'rtable_resize(&m_table, ')],
-                 post=[(r'if \(\+\+self->current_entry == number_of_entries\)', 'ghost_adds = ghost_adds + 1; ghost_slot = (ghost_slot + 1 == N_ENT) ? 0 : ghost_slot + 1; /*ghost*/ if (++self->current_entry == number_of_entries)')])
+                 post=[(r'if \(\+\+self->current_entry (==|>=|>|!=) number_of_entries\)', r'ghost_adds = ghost_adds + 1; ghost_slot = (ghost_slot + 1 == N_ENT) ? 0 : ghost_slot + 1; /*ghost*/ if (++self->current_entry \1 number_of_entries)')])   # the ghost statement is anchored at the ring increment whatever comparison follows it
 PIPELINES.append(Pipeline('U5_ReferenceTable_add', units=[U_rtadd_g], prelude=lambda repo: rt_prelude(repo).replace('__CPROVER_ensures(ghost_c >= n || dst[ghost_c] == src[ghost_c]);', ';'), contracts={'ReferenceTable_add': [
     ('pre', 'requires', 'ghost_tabsize == 15000u * 256u && __CPROVER_is_fresh(self, sizeof(*self)) && RT_OK(self) && size >= 1 && size <= 100000 && __CPROVER_is_fresh(string, size) && ghost_adds < (1ULL << 62)'),
     ('post:strings of up to 250 characters (252 bytes) are entered, longer ones are not and do not shift the numbering', 'ensures',
